@@ -14,42 +14,35 @@ tvars == <<offset, nw, bits, reclaimed, l, o0, ever>>
 Ev == Trace[l]
 IsEvent(k) == l <= Len(Trace) /\ Ev.k = k /\ Ev.abn = "" /\ l' = l + 1
 
-\* the logged post-state equals the machine's post-state
-StateMatches(st) == /\ offset' = st.off /\ nw' = st.nw /\ bits' = ToSet(st.ones)
-                    /\ (st.rec >= 0 => reclaimed' = st.rec)      \* unexported bookkeeping, through the verif hook
+\* The machine's post-state, computed with the functional forms of the actions (MC_TailBitmap checks that they
+\* ARE the actions).  What the property fixes is compared with the log: Offset and the stored 1-bits.  The
+\* number of stored words is only required to hold every stored bit (the property does not fix capacity or
+\* spare words), so it is taken from the log; the unexported reclaim bookkeeping is not compared at all.
+Post(m, st) == /\ offset' = m[1] /\ bits' = m[3] /\ reclaimed' = m[4] /\ nw' = st.nw
+               /\ st.off = m[1] /\ ToSet(st.ones) = m[3] /\ st.nw >= 0
 
 Trim(S, o) == {x \in S : x >= o}
-
-\* the property, evaluated on the post-state of every step (as primed conjuncts, so that a
-\* violation rejects the event instead of printing a counterexample as long as the trace)
-PropertyHolds ==
-    /\ Aligned' /\ InRange'
-    /\ offset' >= offset                                   \* never decreases
-    /\ \A j \in offset..(offset' - 1) : j \in ever'\cup ever  \* never moves past a 0
-    /\ bits' = Trim(ever', offset')                        \* neither forgets nor invents
 
 TraceNew ==
     /\ IsEvent("New")
     \* positions are logged relative to the initial offset (translation invariance): o0 = 0
-    /\ New(0) /\ o0' = 0 /\ ever' = {}
+    /\ Post(<<0, 0, {}, 0>>, Ev.st) /\ o0' = 0 /\ ever' = {}
     /\ Ev.omod = 0
-    /\ StateMatches(Ev.st) /\ Aligned' /\ InRange'
+    /\ Aligned' /\ InRange'
 
 TraceSet ==
     /\ IsEvent("Set")
-    /\ Set(Ev.idx)
+    /\ Post(SetF(tbvars, Ev.idx), Ev.st)
     /\ ever' = Trim(ever \cup {Ev.idx}, offset') /\ o0' = o0
-    /\ StateMatches(Ev.st)
-    /\ Aligned' /\ InRange' /\ offset' >= offset
-    /\ \A j \in offset..(offset' - 1) : j \in (ever \cup {Ev.idx})
-    /\ bits' = ever'
-    /\ (nw' > 0 => ~Full(offset', bits'))                  \* head word not all-ones after Set
+    /\ Aligned' /\ InRange' /\ offset' >= offset                    \* multiple of W, every bit stored, never decreases
+    /\ \A j \in offset..(offset' - 1) : j \in (ever \cup {Ev.idx})   \* never moves past a 0
+    /\ bits' = ever'                                               \* neither forgets nor invents
+    /\ (nw' > 0 => ~Full(offset', bits'))                          \* head word not all-ones after Set
 
 TraceCompact ==
     /\ IsEvent("Compact")
-    /\ Compact
+    /\ Post(CompactF(tbvars), Ev.st)
     /\ ever' = Trim(ever, offset') /\ o0' = o0
-    /\ StateMatches(Ev.st)
     /\ Aligned' /\ InRange' /\ offset' >= offset
     /\ \A j \in offset..(offset' - 1) : j \in ever
     /\ bits' = ever'
@@ -64,16 +57,14 @@ TraceGet ==
     /\ Stored(Ev.j)
     /\ ToSet(Ev.r) = GetVal(Ev.j)
     /\ ToSet(Ev.r) = (IF Expected1(Ev.j) = 1 THEN {Ev.j % W} ELSE {})
-    /\ UNCHANGED <<tbvars, o0, ever>>
-    /\ StateMatches(Ev.st)
+    /\ UNCHANGED <<o0, ever>> /\ Post(tbvars, Ev.st)
 
 TraceGet1 ==
     /\ IsEvent("Get1")
     /\ Stored(Ev.j)
     /\ ToSet(Ev.r) = (IF Get1Val(Ev.j) = 1 THEN {0} ELSE {})
     /\ Get1Val(Ev.j) = Expected1(Ev.j)
-    /\ UNCHANGED <<tbvars, o0, ever>>
-    /\ StateMatches(Ev.st)
+    /\ UNCHANGED <<o0, ever>> /\ Post(tbvars, Ev.st)
 
 TraceInit == offset = 0 /\ nw = 0 /\ bits = {} /\ reclaimed = 0 /\ l = 1 /\ o0 = 0 /\ ever = {}
 TraceNext == TraceNew \/ TraceSet \/ TraceCompact \/ TraceGet \/ TraceGet1
